@@ -568,6 +568,12 @@ func run(in input, em *lib.Emitter, id string) {
 		return
 	}
 	obs, doneBefore, detail := exec(in)
+	if obs == "Malformed" && detail == "group too small for the done-check markers" {
+		// a limitation of this driver (it needs two other attempt seats to observe the done-check), not an
+		// observation about the implementation: the case is not emitted, only counted
+		em.Tally("skipped-done-check-needs-two-marker-seats")
+		return
+	}
 	n := len(in.Ops)
 	selfOp := in.Ops[in.Self-1]
 	// address of the sender's key as the code's own oracle sees it
